@@ -70,6 +70,7 @@ inductive HObs (α β : Type) where
   | got (v : Option β)
   | has (b : Bool)
   | entries (es : List (α × β))
+  deriving DecidableEq
 
 variable {α β κ : Type} [DecidableEq κ]
 
